@@ -41,7 +41,7 @@ REQUIRED = ['status_400', 'status_505', 'status_500', 'status_200_dispatched', '
             'exception_event_seen', 'disconnect_mid_message', 'disconnect_after_response', 'canary_answered', 'residue_scans',
             'weakref_checks', 'responses_parsed_by_reference', 'responses_crosschecked_http_client', 'reject_class_complete',
             'truncation_cases', 'multi_read_cases', 'ref_parser_selftest_checks', 'announced_close_followed_by_close']
-REQUIRED_OBLIGATIONS = ['LOOP_SURVIVES', 'ONE_VALID_RESPONSE_PER_READ', 'CLOSE_FOLLOWS_ANNOUNCEMENT', 'REJECTED_NOT_DISPATCHED',
+REQUIRED_OBLIGATIONS = ['INCOMPLETE_MESSAGE_WAITS', 'LOOP_SURVIVES', 'ONE_VALID_RESPONSE_PER_READ', 'CLOSE_FOLLOWS_ANNOUNCEMENT', 'REJECTED_NOT_DISPATCHED',
                         'ERROR_STATUS_FOR_REJECTED', 'NO_STATE_AFTER_DISCONNECT', 'WELL_FORMED_DISPATCHED', 'EXCEPTION_ANSWERED_OR_CLOSED']
 # KEPT_OPEN_CONNECTION_STILL_SERVES is only evaluated when the component answers a hostile message without closing; the tree under
 # test closes after every error response, so zero evaluations of it are the expected outcome and it is not required
@@ -56,6 +56,10 @@ CANARY = b'GET /canary HTTP/1.1\r\nHost: canary\r\n\r\n'
 GOOD = b'GET /ok?x=1 HTTP/1.1\r\nHost: h\r\nX-A: 1\r\n\r\n'
 GOOD_POST = b'POST /p HTTP/1.1\r\nHost: h\r\nContent-Length: 5\r\n\r\nhello'
 GOOD_CHUNKED = b'POST /c HTTP/1.1\r\nHost: h\r\nTransfer-Encoding: chunked\r\n\r\n3\r\nabc\r\n2\r\nde\r\n0\r\n\r\n'
+import gzip as _gzip  # noqa: E402
+_GZ = _gzip.compress(b''.join(b'line %03d: the quick brown fox jumps over the lazy dog\n' % i for i in range(40)), mtime=0)
+# a well-compressible gzip body: Content-Length counts the compressed bytes on the wire, not what they decompress to
+GOOD_GZIP = b'POST /gz HTTP/1.1\r\nHost: h\r\nContent-Encoding: gzip\r\nContent-Length: %d\r\n\r\n%s' % (len(_GZ), _GZ)
 PROBE_BODY = b'probe saw the request'
 CTL_OR_BACKSLASH = re.compile(rb'[\x00-\x08\x0b\x0c\x0e-\x1f\x7f\\]')
 OTHER_MAJOR = re.compile(rb'(?m)^([^\r\n]* )HTTP/[02-9]\.\d\r\n')
@@ -278,6 +282,11 @@ def judge(case, obs):
             res.append(('EXCEPTION_ANSWERED_OR_CLOSED', bool(st['written'] or st['closes']),
                         {'read': i, 'exceptions': st['exceptions'], 'written': st['written'][:200], 'closes': st['closes']},
                         '%s:%s' % (cls, st['exceptions'][0])))
+    if case.get('incomplete_wellformed'):
+        wrote = any(st['written'] or st['closes'] for st in obs['steps'])
+        res.append(('INCOMPLETE_MESSAGE_WAITS', not any_request and not wrote,
+                    {'class': cls, 'prefix_len': len(b''.join(case['chunks'])), 'message_len': len(case['orig']), 'request_events': any_request,
+                     'answered_or_closed': wrote, 'statuses': statuses}, 'incomplete'))
     if case.get('expect') == 'reject' and complete:
         res.append(('REJECTED_NOT_DISPATCHED', not any_request, {'class': cls, 'request_events': any_request, 'statuses': statuses}, cls))
         bad = [s for s in statuses if not 400 <= s <= 599]
@@ -587,12 +596,13 @@ def make_case(cls, expect, data, orig, chunks=None, disconnect_after='end', **ex
 
 def corpus_cases():
     cases = []
-    for good, tag in ((GOOD, 'get'), (GOOD_POST, 'post'), (GOOD_CHUNKED, 'chunked')):
+    for good, tag in ((GOOD, 'get'), (GOOD_POST, 'post'), (GOOD_CHUNKED, 'chunked'), (GOOD_GZIP, 'gzip')):
         cases.append(make_case('well-formed', 'accept', good, good))
         cases.append(make_case('well-formed', 'accept', good, good, disconnect_after=None))
-        # truncation at every offset, then disconnect
+        # truncation at every offset, then disconnect; a proper prefix of a well-formed message is an incomplete message:
+        # the only admissible reaction is to wait for the rest
         for cut in range(0, len(good)):
-            cases.append(make_case('truncated', 'any', good[:cut], good, truncated=True))
+            cases.append(make_case('truncated', 'any', good[:cut], good, truncated=True, incomplete_wellformed=True))
         # ... and in two reads with a disconnect after the first or the second
         for cut in range(1, len(good), 7):
             cases.append(make_case('well-formed', 'accept', good, good, chunks=[good[:cut], good[cut:]]))
